@@ -68,6 +68,12 @@ EXTRA_SPECIMENS = [
     (IN, "APL", ""),
     (IN, "APL", "1:0.0.0.0/0 !2:::/0 2:1:2:3:4:5:6:7:8/128 1:255.255.255.255/32"),
     (IN, "NSEC", "\\000.\\255.example. A TYPE65535"),
+    (IN, "NSEC", "x.example. A RRSIG NSEC CAA"),
+    (IN, "NSEC", "x.example. A NS SOA TYPE255 TYPE256 TYPE512 TYPE1234 TYPE65280"),
+    (IN, "NSEC3", "1 0 10 ab 2t7b4g4vsa5smi47k61mv5bv1a22bojr A RRSIG NSEC3PARAM CAA TYPE768"),
+    (IN, "CSYNC", "66 3 A NS AAAA CAA"),
+    (IN, "TXT", '"a\\001b\\127" "\\195\\169\\"\\\\" "tab\\009nl\\010" "\\226\\130\\172 \\240\\159\\152\\128"'),
+    (IN, "SPF", '"v=spf1 \\031 \\195\\188"'),
     (IN, "NSEC3", "1 0 0 - 00 A"),
     (IN, "NSEC3", "255 255 65535 ff vvvvvvvvvvvvvvvvvvvvvvvvvvvvvvvv"),
     (IN, "CSYNC", "0 65535"),
@@ -192,15 +198,83 @@ def mutate_rdtext(rng, t):
     return " ".join(toks)
 
 
+def bitmap_wire(types):
+    """canonical RFC 4034 type bitmap of a set of types (independent of dns.rdtypes.util.Bitmap)"""
+    out = b""
+    for window in sorted({t >> 8 for t in types}):
+        bits = bytearray(32)
+        for t in types:
+            if t >> 8 == window:
+                bits[(t & 0xFF) >> 3] |= 0x80 >> (t & 7)
+        n = max(i for i in range(32) if bits[i]) + 1
+        out += bytes([window, n]) + bytes(bits[:n])
+    return out
+
+
+def gen_types(rng):
+    pool = [1, 2, 6, 15, 16, 28, 46, 47, 48, 50, 51, 255, 256, 257, 258, 263, 511, 512, 768, 1234, 32768, 65280, 65535]
+    r = rng.random()
+    if r < 0.5:
+        return set(rng.sample(pool, rng.randint(1, 8)))
+    if r < 0.8:
+        # a high bit in an early window, only low bits in later ones
+        return {rng.choice([255, 250, 128, 47])} | {(w << 8) | rng.randrange(1, 8) for w in rng.sample(range(1, 256), rng.randint(1, 4))}
+    return {rng.randrange(1, 65536) for _ in range(rng.randint(1, 12))}
+
+
+def structured_values(rng, n):
+    """(rdclass, rdtype, wire) of values built without the library's text or bitmap code"""
+    nxt = b"\x01x\x07example\x00"
+    for _ in range(n):
+        bm = bitmap_wire(gen_types(rng))
+        yield int(IN), int(dns.rdatatype.NSEC), nxt + bm
+        yield int(IN), int(dns.rdatatype.NSEC3), b"\x01\x00\x00\x0a\x02\xab\xcd\x14" + bytes(rng.randrange(256) for _ in range(20)) + bm
+        yield int(IN), int(dns.rdatatype.CSYNC), b"\x00\x00\x00\x42\x00\x03" + bm
+        # TXT-like strings that are valid UTF-8 and contain control / quote / non-ASCII characters
+        strs = []
+        for _ in range(rng.randint(1, 3)):
+            t = "".join(rng.choice(["a", " ", "\x00", "\x01", "\x1f", "\x7f", '"', "\\", ";", "\t", "\n", "\u00e9", "\u20ac", "\U0001f600",
+                                    "\u0080", "\u009f", "\u00a0", "\u00ad", "\u07ff", "\u0378", "\u200b", "\u2028", "\u3000", "\ue000",
+                                    "\ufeff", "\uffff", "\U000e0001", "\U0010ffff"])
+                        for _ in range(rng.randint(0, 8)))
+            strs.append(t.encode()[:255])
+        w = b"".join(bytes([len(x)]) + x for x in strs)
+        yield int(IN), int(rng.choice([dns.rdatatype.TXT, dns.rdatatype.SPF, dns.rdatatype.AVC, dns.rdatatype.NINFO])), w
+
+
+def ctor_values(rng, per_type):
+    """values built through the class constructors by the shared generator harness/records.py
+    (C02); optional - the check does not depend on it"""
+    try:
+        import records as R
+        T = R.table()
+    except Exception:  # noqa
+        return
+    for t in T.types:
+        if t["name"] == "OPT":
+            continue
+        for _ in range(per_type):
+            try:
+                v = R.gen_values(rng, t)
+                rd = R.make_rdata(t, t["rdclass"] if t["rdclass"] != 255 else int(IN), v)
+                yield int(rd.rdclass), int(rd.rdtype), rd.to_wire()
+            except Exception:  # noqa
+                continue
+
+
 def record_cases(ctx):
     rng = ctx.rng
     repo = lib.REPO
     spec = specimens(repo)
     types = implemented_types()
     ctx.notes["record_types"] = len(types)
-    nmut = ctx.n(12, 150)
-    nrand = ctx.n(4, 40)
-    ntext = ctx.n(8, 100)
+    nmut = ctx.n(6, 150)
+    nrand = ctx.n(2, 40)
+    ntext = ctx.n(4, 100)
+    for rdclass, rdtype, w in structured_values(rng, ctx.n(25, 600)):
+        yield "rd-structured", [100, rdclass, rdtype, w, rng.randrange(2)]
+    for rdclass, rdtype, w in ctor_values(rng, ctx.n(3, 60)):
+        yield "rd-ctor", [100, rdclass, rdtype, w, rng.randrange(2)]
     for rdclass, rdtype in types:
         seeds = spec.get((rdclass, rdtype), [])
         if not seeds:
@@ -232,12 +306,18 @@ def record_cases(ctx):
 
 # ------------------------------------------------------------------ runner
 
+# RdataStyle fields (dns/rdata.py RdataStyle + dns/name.py NameStyle + dns/style.py): origin / relativize are
+# driven by the modes of value_checks; txt_is_utf8 (bool) x hex/base64 chunk sizes x separators are enumerated here;
+# omit_final_dot has its own mode (read back with the root origin); idna_codec changes the name syntax
+# (not zone-file text) and truncate_crypto is documented as losing information: both excluded.
 STYLES = [
     ("default", {}),
-    ("nochunk", {"hex_chunk_size": 0, "base64_chunk_size": 0}),
-    ("tab2", {"hex_chunk_size": 2, "hex_chunk_separator": "\t", "base64_chunk_size": 3, "base64_chunk_separator": "  "}),
-    ("odd", {"hex_chunk_size": 7, "base64_chunk_size": 5, "hex_chunk_separator": " \t", "base64_chunk_separator": " "}),
     ("utf8", {"txt_is_utf8": True}),
+    ("nochunk", {"hex_chunk_size": 0, "base64_chunk_size": 0}),
+    ("tab2-utf8", {"hex_chunk_size": 2, "hex_chunk_separator": "\t", "base64_chunk_size": 3, "base64_chunk_separator": "  ", "txt_is_utf8": True}),
+    ("odd", {"hex_chunk_size": 7, "base64_chunk_size": 5, "hex_chunk_separator": " \t", "base64_chunk_separator": " "}),
+    ("one-nosep", {"hex_chunk_size": 1, "base64_chunk_size": 1, "hex_chunk_separator": "", "base64_chunk_separator": "\t\t"}),
+    ("big", {"hex_chunk_size": 4096, "base64_chunk_size": 4096, "txt_is_utf8": True}),
 ]
 
 
@@ -306,6 +386,13 @@ def _rt(x, expect, rdclass, rdtype, style_kw, out_origin, out_rel, in_origin, in
         return
     if not same:
         fails.append(("text parses back to a different record", f"{tag} text={text[:150]!r} got={_safe_text(y)[:150]!r}"))
+    elif tag.endswith("mode=abs-asis"):
+        # no relativization involved: the octets must be identical, name case included
+        try:
+            if y.to_wire() != x.to_wire():
+                fails.append(("text parses back to a different record", f"{tag} wire differs text={text[:150]!r}"))
+        except Exception as e:  # noqa
+            fails.append(("accepted from text but to_wire raised", f"{tag} text={text[:150]!r} exc={_short(e)}"))
 
 
 def _safe_text(y):
@@ -354,7 +441,11 @@ def value_checks(rdclass, rdtype, wire, use_origin, fails):
             _rt(x_rel, x_absn, rdclass, rdtype, kw, ORIGIN, False, None, True, None, tag + " mode=absout", fails)
             # relativize_to a different origin
             _rt(x_rel, x_sub, rdclass, rdtype, kw, None, False, ORIGIN, True, ORIGIN2, tag + " mode=relto", fails)
-        if fails and sid == "default":
+        if sid in ("default", "odd"):
+            # NameStyle.omit_final_dot: absolute names lose their final dot; the root origin restores it
+            _rt(x_abs, x_abs, rdclass, rdtype, dict(kw, omit_final_dot=True), None, False, dns.name.root, False, None,
+                tag + " mode=omitdot", fails)
+        if fails and sid == "utf8":
             # the remaining styles repeat the same failure; keep the report small
             break
     # RFC 3597 generic form
@@ -362,7 +453,7 @@ def value_checks(rdclass, rdtype, wire, use_origin, fails):
         g = x_abs.to_generic()
         if bytes(g.data) != bytes(wire) and dns.rdata.from_wire(rdclass, rdtype, g.data, 0, len(g.data)) != x_abs:
             fails.append(("to_generic changes the value", tname))
-        for sid, kw in STYLES[:4]:
+        for sid, kw in STYLES[2:6]:
             gt = g.to_text(style=dns.rdata.RdataStyle(**kw))
             y = dns.rdata.from_text(rdclass, rdtype, gt)
             if y != x_abs:
